@@ -579,7 +579,7 @@ def _cases(ctx):
             yield json.loads(f.read_text())["case"]
     thorough = ctx.tier == "thorough" or ctx.deep
     yield from exhaustive_cases(3 if thorough else 2)
-    for _ in range(ctx.budget(1500, 20000)):
+    for _ in range(ctx.budget(1000, 20000)):
         yield gen_case(ctx.rng)
 
 
